@@ -38,8 +38,8 @@ type phase struct {
 }
 
 type propCfg struct {
-	Engine string
-	Quick  []phase
+	Engine   string
+	Quick    []phase
 	Thorough []phase
 }
 
@@ -63,27 +63,27 @@ var props = map[string]propCfg{
 
 // Summary mirrors cmd/sim's batch summary.
 type Summary struct {
-	Engine       string          `json:"engine"`
-	Race         bool            `json:"race"`
-	Evaluations  int             `json:"evaluations"`
-	Runs         int             `json:"runs"`
-	Nontrivial   int             `json:"nontrivial"`
-	Requests     int             `json:"requests"`
-	Steps        int             `json:"steps"`
-	Ticks        int64           `json:"ticks"`
-	Switches     int             `json:"switches"`
-	Blocked      int             `json:"blocked_handovers"`
-	Faults       map[string]int  `json:"faults"`
-	Sites        map[string]int  `json:"sites"`
-	Probes       map[string]int  `json:"probes"`
-	SwitchPairs  map[string]int  `json:"switch_pairs"`
-	Violations   []VioRef        `json:"violations"`
-	Known        map[string]int  `json:"known"`
-	Samples      []any           `json:"samples"`
-	WallS        float64         `json:"wall_s"`
-	LastIndex    uint64          `json:"last_index"`
-	DistinctRule string          `json:"distinct_rule"`
-	Extra        map[string]int  `json:"extra"`
+	Engine       string         `json:"engine"`
+	Race         bool           `json:"race"`
+	Evaluations  int            `json:"evaluations"`
+	Runs         int            `json:"runs"`
+	Nontrivial   int            `json:"nontrivial"`
+	Requests     int            `json:"requests"`
+	Steps        int            `json:"steps"`
+	Ticks        int64          `json:"ticks"`
+	Switches     int            `json:"switches"`
+	Blocked      int            `json:"blocked_handovers"`
+	Faults       map[string]int `json:"faults"`
+	Sites        map[string]int `json:"sites"`
+	Probes       map[string]int `json:"probes"`
+	SwitchPairs  map[string]int `json:"switch_pairs"`
+	Violations   []VioRef       `json:"violations"`
+	Known        map[string]int `json:"known"`
+	Samples      []any          `json:"samples"`
+	WallS        float64        `json:"wall_s"`
+	LastIndex    uint64         `json:"last_index"`
+	DistinctRule string         `json:"distinct_rule"`
+	Extra        map[string]int `json:"extra"`
 }
 
 type Violation struct {
@@ -169,9 +169,9 @@ type phaseResult struct {
 }
 
 type raceHit struct {
-	Index  uint64
-	Report string
-	Replay string
+	Index     uint64
+	Report    string
+	Replay    string
 	Confirmed int
 }
 
@@ -727,8 +727,8 @@ func writeEvidence(id, mode string, seed uint64, results []*phaseResult, nviol i
 	cov["known_findings_observed"] = knownObs
 	cov["phases"] = phasesOut
 	cov["real_vs_stub"] = map[string]string{
-		"real":  "all of flamego (router, tree matcher, context/chain, injector, ResponseWriter wrapper, Recovery, Logger, Renderer, Static), net/http's ServeContent/Redirect/Error helpers, http.Dir containment, charmbracelet/log",
-		"stub":  "the underlying http.ResponseWriter (SpyWriter), the *http.Request (struct literal) and its cancelable context, handlers/BeforeFuncs/callbacks (simulated programs), the http.FileSystem (FaultFS over a real directory or MapFS), the log sink",
+		"real":          "all of flamego (router, tree matcher, context/chain, injector, ResponseWriter wrapper, Recovery, Logger, Renderer, Static), net/http's ServeContent/Redirect/Error helpers, http.Dir containment, charmbracelet/log",
+		"stub":          "the underlying http.ResponseWriter (SpyWriter), the *http.Request (struct literal) and its cancelable context, handlers/BeforeFuncs/callbacks (simulated programs), the http.FileSystem (FaultFS over a real directory or MapFS), the log sink",
 		"not_simulated": "Flame.Run/Stop, net/http server, HTTP parsing, sockets, TLS",
 	}
 	ev := map[string]any{
